@@ -186,7 +186,7 @@ def gen_worker(args):
 def correspondence(res):
     from props import c02
     W = 14
-    n = 160 if res.tier == "quick" else 800
+    n = 160 if res.tier == "quick" else 480
     terms, infos = c02.parallel(res, gen_worker, [(res.seed * 1000 + w, max(1, n // W)) for w in range(W)])
     # the model is only consulted for the cases in which the implementation ran out of its budget
     hard = [i for i, inf in enumerate(infos) if not inf["impl_finished_within_budget"]]
